@@ -11,7 +11,7 @@ BOOK.current-state   : current_state() asks state.fun (REFLECTION) under `instru
 import ast
 
 from sa.model import AnalysisError, walk_shallow, dotted, norm
-from sa.util import cfg_of, shallow_calls, local_defs, signal_const
+from sa.util import expand_locals, cfg_of, shallow_calls, local_defs, signal_const
 from sa.context import callgraph
 from sa import wrap
 from sa.hsmsites import handler_call_nodes, handler_calls
@@ -77,7 +77,7 @@ def check(run, model, tier):
                          '' if ok else ('a state handler can still run after %s was assigned (%s): a spy-wrapped handler rewrites the field with its own '
                                         'name, so the field describes the last state *called*, not the current state' % (kind, late[0].text())), node=n.ast, obligation=True)
                 # the value names what was stored in state.fun
-                v = n.ast.value
+                v = expand_locals(n.ast.value, f.node, params=f.params)
                 base = v.value if (kind == 'state_name' and isinstance(v, ast.Attribute) and v.attr == '__name__') else v
                 if kind == 'state_name' and not (isinstance(v, ast.Attribute) and v.attr == '__name__'):
                     run.inst('BOOK.after-last-call', f, 'state_name is <current state>.__name__', False, 'state_name is assigned %s' % norm(v), node=n.ast, obligation=True)
@@ -126,15 +126,28 @@ def check(run, model, tier):
     chart = inner.params[0]
     fnp = so.params[0]
     defs = local_defs(inner.node)
-    sn = [n for n in g.nodes if n.kind == 'stmt' and isinstance(n.ast, ast.Assign) and any(dotted(t) == chart + '.state_name' for t in n.ast.targets)]
-    sf = [n for n in g.nodes if n.kind == 'stmt' and isinstance(n.ast, ast.Assign) and any(dotted(t) == chart + '.state_fn' for t in n.ast.targets)]
+    def assigned_value(n, path):
+        """the value a CFG node assigns to `path` (also as one element of a tuple assignment), or None"""
+        if n.kind != 'stmt' or not isinstance(n.ast, ast.Assign):
+            return None
+        for t in n.ast.targets:
+            if dotted(t) == path:
+                return n.ast.value
+            if isinstance(t, ast.Tuple) and isinstance(n.ast.value, ast.Tuple) and len(t.elts) == len(n.ast.value.elts):
+                for a_, b_ in zip(t.elts, n.ast.value.elts):
+                    if dotted(a_) == path:
+                        return b_
+        return None
+    sn = [n for n in g.nodes if assigned_value(n, chart + '.state_name') is not None]
+    sf = [n for n in g.nodes if assigned_value(n, chart + '.state_fn') is not None]
     fcs = [n for n in g.nodes if wrap.fn_calls_in(n, fnp)]
     ok = len(sn) == 1 and all(g.dominates(sn[0], fc) for fc in fcs)
     if ok:
-        v = sn[0].ast.value
+        v = assigned_value(sn[0], chart + '.state_name')
         ok = norm(v) == fnp + '.__name__' or (isinstance(v, ast.Name) and all(norm(d) == fnp + '.__name__' for d in defs.get(v.id, []) if not isinstance(d, tuple)))
     run.inst('BOOK.spy', inner, 'state_name = wrapped.__name__ before the call', ok, 'spy_on does not set state_name from the wrapped function before calling it', obligation=True)
-    ok = len(sf) == 1 and all(g.dominates(sf[0], fc) for fc in fcs) and isinstance(sf[0].ast.value, ast.Name) and sf[0].ast.value.id == fnp
+    vf_ = assigned_value(sf[0], chart + '.state_fn') if len(sf) == 1 else None
+    ok = len(sf) == 1 and all(g.dominates(sf[0], fc) for fc in fcs) and isinstance(vf_, ast.Name) and vf_.id == fnp
     run.inst('BOOK.spy', inner, 'state_fn = wrapped function before the call', ok, 'spy_on does not set state_fn to the wrapped function before calling it', obligation=True)
     # ---- current_state
     hq = model.cls('HsmWithQueues')
@@ -149,6 +162,7 @@ def check(run, model, tier):
         if isinstance(v, ast.Name):
             ds = [d for d in cdefs.get(v.id, []) if not isinstance(d, tuple)]
             v = ds[0] if len(ds) == 1 else None
-        ok = ok and isinstance(v, ast.Call) and dotted(v.func) == cs.params[0] + '.state.fun' and any(signal_const(x) == 'REFLECTION_SIGNAL' for x in ast.walk(v))
+        callee = expand_locals(v.func, cs.node, params=cs.params) if isinstance(v, ast.Call) else None
+        ok = ok and isinstance(v, ast.Call) and dotted(callee) == cs.params[0] + '.state.fun' and any(signal_const(x) == 'REFLECTION_SIGNAL' for x in ast.walk(v))
     run.inst('BOOK.current-state', cs, 'current_state reflects state.fun', ok, 'current_state does not return the reflection of state.fun', obligation=True)
     run.assume('a spy-wrapped handler rewrites state_name/state_fn on every invocation (BOOK.spy), so the last call decides unless the bookkeeping follows it')
